@@ -1386,7 +1386,8 @@ def rule_deriv_symbolic(chk, prog):
                 continue
             try:
                 want = mono.diff(val, var)
-                verdict = mono.definitely_different(want, got)
+                # overflow-safe idiom: a form even in t evaluated at exp(-|t|) is that form at exp(t)
+                verdict = mono.definitely_different(want, mono.resolve_even_exp_abs(got))
             except NotComparable as e:
                 chk.note("deriv-symbolic", where, "d/dx[self.%s]: %s" % (k, e))
                 chk.count("deriv-symbolic not-comparable")
